@@ -34,7 +34,7 @@ pub fn file_name() -> impl Strategy<Value = String> {
         1 => Just("- a:1".to_string()),
         1 => "[a-z]{60,120}\\.sol",
         // markup-like and bidirectional control characters
-        1 => prop::sample::select(vec!["Vault<T>.sol", "a<b>c.sol", "<>.sol", "a&b.sol", "&lt;.sol", "a*b*.sol", "`tick`.sol", "[l](x).sol", "a\\b.sol", "x\u{202e}y.sol", "\u{2066}z\u{2069}.sol", "a\tb.sol", "_a_.sol", "a|b.sol"]).prop_map(|s| s.to_string()),
+        1 => prop::sample::select(vec!["Vault<T>.sol", "a<b>c.sol", "<>.sol", "a&b.sol", "&lt;.sol", "a*b*.sol", "`tick`.sol", "[l](x).sol", "a\\b.sol", "x\u{202e}y.sol", "\u{2066}z\u{2069}.sol", "a\tb.sol", "_a_.sol", "a|b.sol", "{total}.sol", "{}.sol", "{0}.sol", "%s.sol", "$1.sol", "\\1.sol", "${total}.sol", "{{total}}.sol"]).prop_map(|s| s.to_string()),
         // names that coincide under a coarser comparison (letter case, numeric value of digit runs)
         2 => prop::sample::select(vec!["token.sol", "TOKEN.sol", "Token.SOL", "Vault_v1.sol", "Vault_v01.sol", "Vault_v001.sol", "V18446744073709551616.sol", "V18446744073709551617.sol", "stra\u{df}e.sol", "STRASSE.sol", "strasse.sol"]).prop_map(|s| s.to_string()),
         2 => "\\PC{1,16}".prop_filter("no line breaks", |s| !s.contains('\n') && !s.contains('\r') && !s.is_empty()),
@@ -60,7 +60,7 @@ pub fn files(allow_empty: bool) -> impl Strategy<Value = Vec<(String, BTreeSet<i
         1 => prop::collection::vec(("[a-z]{1,6}\\.sol", line_set()), 250..300),
         // groups of entries that tie under a coarser sort key: the same line set under names that
         // differ only in letter case / number spelling (or not at all)
-        3 => (prop::sample::subsequence(vec!["Token.sol", "token.sol", "TOKEN.sol", "Vault_v1.sol", "Vault_v01.sol", "Vault_v001.sol", "Token.sol"], 2..=5), line_set(), prop::collection::vec((file_name(), line_set()), 0..3)).prop_map(|(names, lines, mut rest)| {
+        3 => (prop::sample::subsequence(vec!["Token.sol", "token.sol", "TOKEN.sol", "Vault_v1.sol", "Vault_v01.sol", "Vault_v001.sol", "Token.sol", "Token.sol.sol", "Token", "Token.sol ", " Token.sol", "Token.SOL", "./Token.sol"], 2..=6), line_set(), prop::collection::vec((file_name(), line_set()), 0..3)).prop_map(|(names, lines, mut rest)| {
             for n in names {
                 rest.push((n.to_string(), lines.clone()));
             }
